@@ -314,6 +314,9 @@ func c19Generate(g *srcGen) string {
 			nested := []string{"<b>bold</b>", "<code>func main() {\n    if a &lt; b {\n        x(\"a   b\")\n    }\n}\n</code>", "<span class=\"k\">name      value</span>\n<span>id          42</span>", "<code>  {{ codeExample }}\n\n</code>", "<em> lead and trail </em>"}[g.r.Intn(5)]
 			return "<pre" + g.c19Attrs() + ">" + []string{"", "\n", "\n\n", "  "}[g.r.Intn(4)] + "  keep   this\n   {{ a < b }} &lt;tag&gt; " + nested + "\n</pre>"
 		case "table":
+			if g.r.Intn(3) == 0 {
+				return "<table><tbody><tr><td><template v-if=\"code\"><pre>col   one\n  col two</pre></template></td><th>h <template v-if=\"js\"><script>if (a < b) { x(); }</script></template></th></tr></tbody></table>"
+			}
 			return "<table><tbody><tr><td" + g.c19Attrs() + ">" + texts[g.r.Intn(len(texts))] + "</td><td>2</td></tr></tbody></table>"
 		case "ul":
 			return "<ul><li" + g.c19Attrs() + ">" + texts[g.r.Intn(len(texts))] + "</li><li><b>x</b> y</li></ul>"
@@ -327,6 +330,12 @@ func c19Generate(g *srcGen) string {
 			case g.r.Intn(7) == 0:
 				// comments, also ones that span several lines (their text is data: no line of it is touched)
 				in.WriteString([]string{"<!-- c -->", "<!--\n  multi\n  line\n-->", "<!-- first\n        second -->", "<!---->", "<!-- {{ x }} <b>not a tag</b> &amp; -->", "<!--\n\ttabbed\n-->"}[g.r.Intn(6)])
+			case g.r.Intn(6) == 0:
+				// a <template> wrapper (v-if / v-for) as a child of any container, phrasing ones included, around content whose white space
+				// or raw text matters: the wrapper is transparent, its content keeps the treatment it has anywhere else
+				wrapped := []string{"<pre>  two   spaces\n    indented {{ a < b }}\n</pre>", "<script>if (a < b && c > d) { go(\"&amp;\"); }</script>", "<style>a > b { color: red; }</style>",
+					"<span>in wrapper</span>", texts[g.r.Intn(len(texts))], "<pre><code>x   y\n\tz</code></pre><b>after</b>"}[g.r.Intn(6)]
+				in.WriteString("<template " + []string{`v-if="show"`, `v-for="it in items"`, `v-else`, ``}[g.r.Intn(4)] + ">" + wrapped + "</template>")
 			case g.r.Intn(5) == 0:
 				in.WriteString("<br>")
 			case g.r.Intn(5) == 0:
